@@ -209,3 +209,68 @@ def c17(c):
     c.partial = ["is_identity for Full/Banded storage and component_mul_mut are tied by the exhaustive/random X-matrix co-simulation only",
                  "matrix! / banded_matrix! macros are not modelled (the bracket form of matrix! does not compile as documented: observation O2)",
                  "entries are exact (ordered field); binary64 only through co-simulation on small dyadic entries"]
+
+
+# ---------------------------------------------------------------------------------------------- handler: C05 C08 C09 C10
+def handler_stream(c):
+    n = 3000 if c.tier == "quick" else 60000
+    return c.stream("xsolout", ["xsolout", c.seed, n], "solout")
+
+
+C05_THEOREMS = ["SolOutM.sampleStep_spec", "SolOutM.sampleStep_lengths", "SolOutM.runTimes_forward", "SolOutM.runRest_nil_of_last",
+                "SolOutM.teval_exact_times_forward", "SolOutM.teval_early_stop_forward", "SolOutM.dueBeforeEvent_tEvents",
+                "SolOutM.outputPhase_prevEvent"]
+
+
+def c05(c):
+    common_proof(c, "IvpModel.Props.C05", C05_THEOREMS)
+    if c.build_harness() and c.build_driver():
+        handler_stream(c)
+        generic_monitor(c, "teval_check", ["teval-check", c.seed, 300 if c.tier == "quick" else 6000], "te")
+    c.cov["samples"] += [{"theorem": "SolOutM.teval_exact_times_forward",
+                          "statement": "0 ≤ tol → rem sorted → (∀ t ∈ rem, x0 + tol < t) → x0 < x1 < … chain → last = xlast → (∀ t ∈ rem, t ≤ xlast + tol) → runTimes true tol rem x0 xs = rem"}]
+    c.partial = ["backward integration: same functions with the mirrored windows (`inUpper false`, `inLower false`); the list theorem is proved for the forward order, the backward order is covered by co-simulation and the monitor",
+                 "accuracy of the interpolated values is C07; independence from dense_output is C12 + monitor (runs compared bitwise)",
+                 "requests within the 1e-12 comparison tolerance beyond an early stop may still be reported (handler tolerance window)"]
+
+
+C08_THEOREMS = ["SolOutM.crossed_all", "SolOutM.crossed_positive", "SolOutM.crossed_negative", "SolOutM.crossed_of_strict",
+                "SolOutM.locate_left", "SolOutM.locate_right", "SolOutM.locate_state_is_interp", "SolOutM.processEvs_prefix"]
+
+
+def c08(c):
+    common_proof(c, "IvpModel.Props.C08", C08_THEOREMS)
+    if c.build_harness() and c.build_driver():
+        handler_stream(c)
+        rows = generic_monitor(c, "event_check", ["event-check", c.seed, 300 if c.tier == "quick" else 6000], "ev")
+    c.violations = [v for v in c.violations if not str(v["replay"].get("finding_key", "")).startswith(("c09", "c10"))]
+    c.partial = ["Brent iteration: root accuracy and staying inside the step are not theorems (the code's acceptance test normalises q, not p: rejected secant steps fall back to bisection — slow but convergent; tied bit-exactly by co-simulation, monitored on the implementation)",
+                 "y_e = continuous solution: theorem for the model's interpolant argument; C06 gives the endpoint identities"]
+
+
+C09_THEOREMS = ["SolOutM.step_prevEvent", "SolOutM.eventPhase_prevEvent", "SolOutM.outputPhase_prevEvent", "SolOutM.outputMode2_prevEvent",
+                "SolOutM.crossed_of_strict", "SolOutM.locateAll_step_adds_at_most_one"]
+
+
+def c09(c):
+    common_proof(c, "IvpModel.Props.C09", C09_THEOREMS)
+    if c.build_harness() and c.build_driver():
+        handler_stream(c)
+        generic_monitor(c, "event_check", ["event-check", c.seed, 300 if c.tier == "quick" else 6000], "ev")
+    c.violations = [v for v in c.violations if not str(v["replay"].get("finding_key", "")).startswith(("c08", "c10"))]
+    c.partial = ["'exactly one event in that step' as a statement about whole runs is checked by the monitor (sign pattern of g at the accepted points vs t_events); the theorem gives the per-callback comparison base and the detection of strict changes",
+                 "location accuracy of the single root (|t_e − c| ≤ tolerance) is monitored, not proved"]
+
+
+C10_THEOREMS = ["SolOutM.step_flag", "SolOutM.eventPhase_fired_last_sample", "SolOutM.processEvs_fired", "SolOutM.processEvs_prefix",
+                "SolOutM.terminalSamples_tEvents", "SolOutM.dueBeforeEvent_tEvents"]
+
+
+def c10(c):
+    common_proof(c, "IvpModel.Props.C10", C10_THEOREMS)
+    if c.build_harness() and c.build_driver():
+        handler_stream(c)
+        generic_monitor(c, "event_check", ["event-check", c.seed, 300 if c.tier == "quick" else 6000], "ev")
+        generic_monitor(c, "teval_check", ["teval-check", c.seed, 200 if c.tier == "quick" else 4000], "te")
+    c.violations = [v for v in c.violations if not str(v["replay"].get("finding_key", "")).startswith(("c08", "c09", "c05-exact", "c05-value", "c05-dense", "c05-early-stop-budget"))]
+    c.partial = ["solver side (Interrupt ⇒ UserInterrupt, no further step) is C19; 'identical to the run without the terminal flag' is monitored on whole runs (prefix comparison), the handler part is processEvs_prefix"]
